@@ -1103,4 +1103,56 @@ theorem usecases_more_key_preserving :
    fun n oc order => (KeyPres.of_progStable (UseCaseMore.proberRunWith_stable n oc order)).key,
    fun n o => (KeyPres.of_progStable (UseCaseMore.proberRun_stable n o)).key⟩
 
+/-! ## witnesses the review found missing (third outside review, item 7) -/
+
+/-- **the `Remove` disjunct of `probe_retry_race_any` is inhabited**: a removal of the probed server (`Remove` with the stored
+copy, as the removal use case and the cleaners issue it) commits between the probe's `Get` and its retry.  The theorem's SECOND
+disjunct holds: the address is gone, `W` is a `Remove`, the retry probe is queued all the same (one item, `retries = 1`, no
+expiry) and the run ends with `ErrServerNotFound` — the registry as the remover left it (empty). -/
+example :
+    let prb : Probe := ⟨abaStale.addr, 10481, .details, 0, 2⟩
+    let W := Call.removeServer abaStale fun x => some x
+    CallResStable W ∧ (W.exec abaState 9).1.getRow prb.addr = none ∧ ¬ VerMono.NoRemove W ∧
+    (raceRun (probe prb none) 1 8 W 9 10 abaState).2 = .error (.repo .serverNotFound) ∧
+    (raceRun (probe prb none) 1 8 W 9 10 abaState).1.servers.toList = [] ∧
+    ((raceRun (probe prb none) 1 8 W 9 10 abaState).1.queue.map fun q => (q.probe.retries, q.expires)) = [(1, none)] := by
+  intro prb W
+  rcases probe_retry_race_any abaState 8 9 10 prb abaStale 5 W trivial abaState_keyed aba_witness.1 (by decide) with
+    ⟨w, uw, hw, _, _⟩ | ⟨hn, hrem, hrun⟩
+  · have hnone : (W.exec abaState 9).1.getRow prb.addr = none := by decide
+    rw [hnone] at hw; cases hw
+  · exact ⟨trivial, hn, hrem, by rw [hrun], by decide, by decide⟩
+
+/-- instance of `probe_failure_race_any` (the final failure, `retries = max = 2`): the keepalive's `Update` commits between the
+probe's `Get` and its failure `Update`; the FIRST disjunct holds — the record the keepalive left is there, unchanged or newer
+than what the probe read (here: one version up) — and the run ends `outOfRetries` with nothing re-queued -/
+example :
+    let prb : Probe := ⟨abaStale.addr, 10481, .details, 2, 2⟩
+    let W := Call.updateServer { abaStale with refreshedAt := some 9 } fun s => some { s with refreshedAt := some 9 }
+    (∃ (w : Server) (uw : Int), (W.exec abaState 9).1.getRow prb.addr = some ⟨w, uw⟩ ∧ (w.version > abaStale.version ∨ w = abaStale)) ∧
+    (raceRun (probe prb none) 1 8 W 9 10 abaState).2 = .outOfRetries ∧
+    (raceRun (probe prb none) 1 8 W 9 10 abaState).1.queue = [] := by
+  intro prb W
+  rcases probe_failure_race_any abaState 8 9 10 prb abaStale 5 W (fun s r h => by cases h; exact ⟨rfl, rfl⟩) abaState_keyed
+    aba_witness.1 (by decide) with ⟨w, uw, hw, hm, hrun⟩ | ⟨_, hrem, _⟩
+  · exact ⟨⟨w, uw, hw, hm⟩, by rw [hrun], by decide⟩
+  · exact absurd trivial hrem
+
+/-- instance of `probe_success_race_any`: the same keepalive between the probe's `Get` and its success `Update`; the FIRST
+disjunct holds, the run ends `success`, and the stored record carries the keepalive's work one more version up (version 5 =
+3 + the keepalive's + the probe's) with the probe's refresh time `now = 10` -/
+example :
+    let prb : Probe := ⟨abaStale.addr, 10481, .details, 0, 2⟩
+    let res : ProbeResult := ⟨⟨[], [], []⟩, 10481⟩
+    let W := Call.updateServer { abaStale with refreshedAt := some 9 } fun s => some { s with refreshedAt := some 9 }
+    (∃ (w : Server) (uw : Int), (W.exec abaState 9).1.getRow prb.addr = some ⟨w, uw⟩ ∧ (w.version > abaStale.version ∨ w = abaStale)) ∧
+    (raceRun (probe prb (some res)) 1 8 W 9 10 abaState).2 = .success ∧
+    ((raceRun (probe prb (some res)) 1 8 W 9 10 abaState).1.getRow prb.addr).map (fun row => (row.svr.version, row.svr.refreshedAt)) =
+      some (5, some 10) := by
+  intro prb res W
+  rcases probe_success_race_any abaState 8 9 10 prb res abaStale 5 W (fun s r h => by cases h; exact ⟨rfl, rfl⟩) abaState_keyed
+    aba_witness.1 with ⟨w, uw, hw, hm, hrun⟩ | ⟨_, hrem, _⟩
+  · exact ⟨⟨w, uw, hw, hm⟩, by rw [hrun], by decide⟩
+  · exact absurd trivial hrem
+
 end Swat4.C13
